@@ -141,6 +141,104 @@ class Facts:
         for b in d["bodies"]:
             b["_file"] = b["span"].split(":")[0]
         self._callers = None
+        self.renamed = {}
+        self._apply_renames()
+
+    # ---- renamed functions --------------------------------------------------------------------------
+    # The rules name the bodies they anchor on.  A function that was only renamed (or moved within its file) must not look like a lost
+    # anchor, so every body name known from the reference profile (rules/anchor_profiles.json, written by bin/mkanchors) that is missing
+    # from the current tree is re-identified by its shape: the callees, constants and parameter types of the unmatched bodies of the
+    # same file are compared with the profile, and a unique close match is given its old name back (in memory only).
+    @staticmethod
+    def profile_of(b):
+        toks = ["argc:%d" % b["argc"], "kind:" + b["kind"]]
+        for l in b["locals"][:b["argc"] + 1]:
+            toks.append("ty:" + l["s"])
+        for bb in b["blocks"]:
+            t = bb["term"]
+            if t["k"] == "call":
+                n = t.get("resolved") or t.get("callee") or "?"
+                toks.append("call:" + n)
+                for a in t["args"]:
+                    if a[0] == "const":
+                        c = a[1]
+                        for k in ("str", "bytes"):
+                            if k in c and len(str(c[k])) < 60:
+                                toks.append("const:" + str(c[k]))
+            for st in bb["stmts"]:
+                if st[0] == "assign" and st[2][0] == "aggregate" and st[2][1].get("adt"):
+                    toks.append("agg:%s::%s" % (st[2][1]["adt"], st[2][1].get("variant")))
+        return toks
+
+    def _apply_renames(self):
+        pf = os.path.join(VERIF, "rules", "anchor_profiles.json")
+        if not os.path.exists(pf) or os.environ.get("VERIF_NO_RENAMES"):
+            return
+        try:
+            prof = json.load(open(pf))
+        except Exception:
+            return
+        missing = [k for k in prof if k not in self.bodies and "::{closure#" not in k]
+        if not missing:
+            return
+        fresh = [k for k in self.bodies if k not in prof and "::{closure#" not in k]
+        if not fresh:
+            return
+        from collections import Counter
+        cur = {k: Counter(self.profile_of(self.bodies[k])) for k in fresh}
+        pairs = {}
+        for old in missing:
+            po = Counter(prof[old]["toks"])
+            # names of other renamed functions show up as different call tokens: compare without crate-local call names that are missing / fresh
+            best = []
+            for k in fresh:
+                if self.bodies[k]["_file"] != prof[old]["file"]:
+                    continue
+                a, b = po, cur[k]
+                inter = sum((a & b).values())
+                union = sum((a | b).values())
+                best.append((inter / union if union else 0.0, k))
+            best.sort(reverse=True)
+            if best and best[0][0] >= 0.7 and (len(best) == 1 or best[0][0] - best[1][0] >= 0.1):
+                pairs[best[0][1]] = old
+        if len(set(pairs.values())) != len(pairs):
+            return
+        for new, old in pairs.items():
+            self._rename(new, old)
+            self.renamed[old] = new
+
+    def _rename(self, new, old):
+        import re as _re
+        pat = _re.compile(_re.escape(new) + r"(?![A-Za-z0-9_])")
+
+        def fix(x):
+            if isinstance(x, str):
+                return pat.sub(old, x) if new in x else x
+            if isinstance(x, list):
+                return [fix(y) for y in x]
+            if isinstance(x, dict):
+                return {k: fix(v) for k, v in x.items()}
+            return x
+        nb = {}
+        for k, b in self.bodies.items():
+            for fld in ("id", "parent", "owner_fn"):
+                if isinstance(b.get(fld), str) and new in b[fld]:
+                    b[fld] = pat.sub(old, b[fld])
+            for bb in b["blocks"]:
+                t = bb["term"]
+                if t["k"] == "call":
+                    for fld in ("callee", "callee_full", "resolved", "resolved_full"):
+                        if isinstance(t.get(fld), str) and new in t[fld]:
+                            t[fld] = pat.sub(old, t[fld])
+                    if t.get("fn_targs"):
+                        t["fn_targs"] = fix(t["fn_targs"])
+                for st in bb["stmts"]:
+                    if st[0] == "assign" and st[2][0] == "aggregate" and st[2][1].get("k") == "closure" and new in st[2][1].get("closure", ""):
+                        st[2][1]["closure"] = pat.sub(old, st[2][1]["closure"])
+            nb[b["id"]] = b
+        self.bodies = nb
+        for im in self.impls:
+            im["items"] = [[n, pat.sub(old, p) if new in p else p] for n, p in im["items"]]
 
     # ---- lookup helpers -------------------------------------------------
     def body(self, bid):
@@ -269,4 +367,12 @@ def const_bytes(op):
     c = op_const(op)
     if c is not None and "bytes" in c:
         return c["bytes"]
+    # a named constant (`const DELIMITERS: &[u8] = b"..."`) arrives as a fat pointer into another allocation
+    if c is not None and str(c.get("ty", "")).startswith("&[u8") and isinstance(c.get("alloc"), dict):
+        refs = c["alloc"].get("refs") or []
+        if len(refs) == 1 and "hex" in refs[0]:
+            try:
+                return bytes.fromhex(refs[0]["hex"]).decode("latin-1")
+            except ValueError:
+                return None
     return None
